@@ -3,7 +3,7 @@
 From Coq Require Import Reals List ZArith.
 From Interval Require Import Real.Xreal Real.Xreal_derive Eval.Prog Eval.Tree Eval.Eval.
 From FeosVerif Require Import ProgSem AD Virial.
-Open Scope R_scope.
+Local Open Scope R_scope.
 
 (** For every function g (the reduced residual Helmholtz energy density along rho at fixed T and
     composition: A(V,N) = V g(N/V), so (Z-1)/rho = (rho g' - g)/rho^2) that vanishes with its first
